@@ -146,6 +146,21 @@ func gen() {
 			}
 		}
 	}
+	// two very large documents per run (more than 65536 DOM nodes: optdec's node buffer has to grow) under UseNumber into a
+	// typed root with interface{} leaves
+	{
+		var b strings.Builder
+		b.WriteString(`{"Any":[`)
+		for i := 0; i < 70000; i++ {
+			if i > 0 {
+				b.WriteByte(',')
+			}
+			b.WriteString(strconv.Itoa(i % 10))
+		}
+		b.WriteString(`],"N":7}`)
+		emit("stdnum", dtygen.Named("PtrHolder"), dtygen.Nil, b.String())
+		emit("defnum", dtygen.Slice(dtygen.Named("PtrHolder")), dtygen.Nil, "["+b.String()+`,{"Any":1.50,"N":2}]`)
+	}
 	for ti := 0; ti < *ntypes; ti++ {
 		tr := r.Fork(uint64(ti))
 		var t *dtygen.Ty
